@@ -95,7 +95,7 @@ CONSTANTS MinVols, MaxVols,   \* 1 or 2
           NoLockSet,   \* {FALSE}; with TRUE also behaviours that IGNORE the flock guards ("lock probes")
           MaxHist
 
-VARIABLES cc, now, prot, seen, tscan, quiet, pend, ent, empAt, unt, must,   \* contract ghost state
+VARIABLES cc, now, prot, seen, tscan, quiet, pend, ent, empAt, unt, must, gc,   \* contract ghost state
           cf,      \* configuration of this behaviour
           dir,     \* dir[v]  = inode at the block path of volume v (0 = no entry)
           ino,     \* ino[i]  = [mt, mtu, ok, lock]
@@ -106,7 +106,7 @@ VARIABLES cc, now, prot, seen, tscan, quiet, pend, ent, empAt, unt, must,   \* c
           ticks, viol, kf, kf2, scanned, hist
 
 C == INSTANCE KeepstoreGCContract
-cvars == <<cc, now, prot, seen, tscan, quiet, pend, ent, empAt, unt, must>>
+cvars == <<cc, now, prot, seen, tscan, quiet, pend, ent, empAt, unt, must, gc>>
 disk  == <<dir, ino, tdir, mux, stamp>>
 vars  == <<cvars, cf, disk, w, t, x, ticks, viol, kf, kf2, scanned, hist>>
 view  == <<cvars, cf, disk, w, t, x, ticks, viol, kf, kf2, scanned>>
@@ -136,11 +136,14 @@ Abs == [v \in Vols |->
 (* Lock probes (nl): schedules in which an actor is told to go on although the model knows the     *)
 (* flock is held by the other one.  The real code blocks there (the driver notices and moves on), *)
 (* so the run is safe; code that lost a flock does not block and the contract sees the race.       *)
-GenFilter(n, ser, life, wk, tk, xk, pre, pretr, ro, nl) ==
+GenFilter(n, ser, life, wk, tk, xk, pre, pretr, ro, nl, tr) ==
     LET notr == \A v \in 1 .. n : pretr[v] = "none"
         probe == n = 1 /\ xk = "none" /\ wk \in {"put", "touch"} /\ tk \in {"delete", "list_eq"} /\ ~ser /\ life = 2
                  /\ pre[1] \in {"intact_old", "corrupt_old"} /\ notr IN
-    IF nl THEN Filter \in {"quick", "thorough"} /\ probe ELSE
+    IF nl THEN Filter \in {"quick", "thorough"} /\ probe /\ tr ELSE
+    \* BlobTrash off ("only when trashing is enabled"): one small family
+    IF ~tr THEN (Filter \in {"none", "quick", "thorough"} /\ n = 1 /\ xk = "none" /\ wk \in {"none", "put"}
+                 /\ tk \in {"delete", "list_eq"} /\ ~ser /\ life = 2 /\ notr) ELSE
     CASE Filter = "quick" ->
            \/ (n = 1 /\ xk = "none" /\ wk \in {"put", "touch"} /\ tk # "none" /\ notr)
            \/ (n = 2 /\ xk = "none" /\ wk = "put" /\ tk = "delete" /\ ~ser /\ life = 2 /\ ro = {} /\ notr
@@ -176,7 +179,7 @@ Init ==
        wk \in WKinds, tk \in TKinds, xk \in XKinds, ro \in ROSets, nl \in NoLockSet :
     \E pre \in [1 .. n -> PreSet], pretr \in [1 .. n -> PreTrash], rv \in 1 .. n :
         /\ ro \subseteq 1 .. n /\ ro # 1 .. n
-        /\ GenFilter(n, ser, life, wk, tk, xk, pre, pretr, ro, nl)
+        /\ GenFilter(n, ser, life, wk, tk, xk, pre, pretr, ro, nl, tr)
         /\ (wk # "none" \/ tk # "none" \/ xk # "none")
         /\ Cardinality({a \in {<<1, wk>>, <<2, tk>>, <<3, xk>>} : a[2] # "none"}) <= MaxActors
         \* a trash-list item names the timestamp of the copy on volume rv (or a stale one)
@@ -569,8 +572,12 @@ FinalScan ==
 (* Partial-order reduction for scenario generation: a step that neither reads nor writes anything *)
 (* another actor or the clock can see is taken at once.                                           *)
 Invisible(pc) ==
-    \/ pc \in {"WriteBlock.IsFull", "WriteBlock.MkdirAll", "WriteBlock.TempFile", "WriteBlock.Copy",
-               "WriteBlock.Write#1", "WriteBlock.tmpfile.Close", "done0"}
+    \/ pc \in {"WriteBlock.IsFull", "WriteBlock.MkdirAll", "done0"}
+    \* the temp file and what has been written to it are invisible to everybody but a directory listing
+    \* (for the code as it is the listing only sees one more name, but a write path that puts partial data
+    \* under the block's name is exposed exactly between these steps)
+    \/ (cf.xk # "index" /\ pc \in {"WriteBlock.TempFile", "WriteBlock.Copy", "WriteBlock.Write#1",
+                                    "WriteBlock.tmpfile.Close"})
     \/ pc \in {"IndexTo.Open", "IndexTo.rootdir.Readdirnames", "IndexTo.Open2", "IndexTo.blockdir.Close",
                "IndexTo.rootdir.Readdirnames2"}
     \/ (~cf.ser /\ pc \in {"WriteBlock.lock", "Touch.lock", "Trash.lock"})
